@@ -17,10 +17,10 @@ LEVEL = {"C07": "exploration", "C08": "fault_enumeration", "C15": "exploration",
 BUDGET = {
     "C20": {"quick": 320_000, "thorough": 6_000_000},
     "C15": {"quick": 160_000, "thorough": 3_000_000},
-    "C07": {"quick": 400_000, "thorough": 8_000_000},
-    "C08": {"quick": 400_000, "thorough": 8_000_000},
-    "C17": {"quick": 400_000, "thorough": 8_000_000},
-    "C19": {"quick": 200_000, "thorough": 3_000_000},
+    "C07": {"quick": 1_200_000, "thorough": 24_000_000},
+    "C08": {"quick": 1_600_000, "thorough": 32_000_000},
+    "C17": {"quick": 800_000, "thorough": 16_000_000},
+    "C19": {"quick": 480_000, "thorough": 8_000_000},
 }
 
 COMPONENTS = {
@@ -172,6 +172,9 @@ def handle_deaths(ctx, results):
             continue
         j = r["job"]
         what = "hung (CPU time without progress)" if r.get("hang") else f"died with status {r['rc']}"
+        if "HARNESS PANIC" in (r.get("output") or ""):
+            ctx.harness_errors.append(f"worker {j['label']}/{j['worker']}: {r['output'][-400:].strip()} (near scenario index {r['died_at']})")
+            continue
         if j["kind"] != "run" or r["died_at"] is None:
             ctx.harness_errors.append(f"worker {j['label']}/{j['worker']} {what}; output: {r['output'][-600:]}")
             continue
@@ -253,6 +256,12 @@ def confirm_replay(ctx, f):
     path = f.get("replay")
     if not path:
         return False
+    if path.endswith((".autotraits.txt", ".build.txt", ".miri.txt", ".c19.scn")):
+        try:
+            p = subprocess.run([sys.executable, os.path.join(ctx.verif, "check"), "replay", path], env=env(), stdout=subprocess.PIPE, stderr=subprocess.STDOUT, text=True, timeout=3600)
+        except subprocess.TimeoutExpired:
+            return False
+        return p.returncode == 1
     try:
         p = subprocess.run([ctx.tzsim, "replay", path, "--quiet"], env=env(), stdout=subprocess.PIPE, stderr=subprocess.STDOUT, text=True, timeout=300)
     except subprocess.TimeoutExpired:
@@ -416,6 +425,13 @@ def main(verif, argv):
     if argv[0] == "build":
         return 0 if ensure_built(verif) else 2
     if argv[0] == "replay":
+        if len(argv) < 2:
+            print("usage: ./check replay <file>")
+            return 2
+        if argv[1].endswith((".autotraits.txt", ".build.txt", ".miri.txt", ".c19.scn")):
+            from plans import replay_special
+            r = replay_special(verif, argv[1])
+            return 2 if r is None else r
         if not ensure_built(verif):
             return 2
         p = subprocess.run([os.path.join(verif, "target", "release", "tzsim"), "replay"] + argv[1:], env=env())
